@@ -66,6 +66,14 @@ class Tr:
             return vals[0]
         return None
 
+    def class_const(self, name: str):
+        """a class-level `NAME = <literal>` of the class being translated"""
+        if not self.scope or self.scope[1] is None:
+            return None
+        vals = [st.value for st in self.scope[1].body if isinstance(st, (ast.Assign, ast.AnnAssign)) and getattr(st, "value", None) is not None
+                and any(isinstance(t, ast.Name) and t.id == name for t in (st.targets if isinstance(st, ast.Assign) else [st.target]))]
+        return vals[0] if len(vals) == 1 and isinstance(vals[0], ast.Constant) and isinstance(vals[0].value, (str, int)) else None
+
     def dotted(self, n) -> str | None:
         if isinstance(n, ast.Name):
             return n.id
@@ -195,6 +203,9 @@ class Tr:
                 else:
                     raise Unsupported("f-string conversion")
             return "(" + " ++ ".join(parts) + ")"
+        if isinstance(n, ast.BinOp) and isinstance(n.op, ast.Div) and self.spec.get("paths"):
+            # pathlib: `dir / name`, `dir / relative_path`
+            return f"({self.e(n.left)} ++ {self.e(n.right)})" if self.typ(n.right) == "path" else f"({self.e(n.left)} ++ [{self.e(n.right)}])"
         if isinstance(n, ast.BinOp):
             op = {ast.Add: "+", ast.Sub: "-", ast.Mult: "*"}.get(type(n.op))
             if op is None:
@@ -249,6 +260,11 @@ class Tr:
             if sym in ("==", "!="):
                 return f"({self.e(a)} {sym} {self.e(b)})"
             return f"decide ({self.e(a)} {sym} {self.e(b)})"
+        if isinstance(n, ast.Call) and self.dotted(n.func) in self.spec.get("call_hooks", {}):
+            return self.spec["call_hooks"][self.dotted(n.func)](self, n)
+        if (isinstance(n, ast.Attribute) and n.attr == "st_size" and isinstance(n.value, ast.Call) and isinstance(n.value.func, ast.Attribute)
+                and n.value.func.attr == "stat" and not n.value.args and not n.value.keywords and self.spec.get("stat_size")):
+            return f"({self.spec['stat_size']} {self.e(n.value.func.value)})"
         if isinstance(n, ast.Call):
             f = n.func
             if isinstance(f, ast.Name) and f.id == "min" and len(n.args) == 2:
@@ -298,6 +314,10 @@ class Tr:
                 comps = [given.get(c, ast.Attribute(value=ast.Name(id=base.id, ctx=ast.Load()), attr=c, ctx=ast.Load())) for c in six]
                 return "(" + self.spec["funcs"]["urlunparse"] + " " + " ".join(self.e(c) for c in comps) + ")"
             hn = self._helper_name(n)
+            if hn is not None and self.dotted(f) not in self.spec.get("funcs", {}) and self.dotted(f) not in self.spec.get("world_ops", {}):
+                inl = self._inline_expr(n, hn)
+                if inl is not None:
+                    return self.e(inl)
             if hn is not None and self.dotted(f) not in self.spec.get("funcs", {}) and self._ensure_helper(hn):
                 return "(" + self._lean_helper(hn) + "".join(" " + self.e(a) for a in n.args) + ")"
             if self.dotted(f) in self.spec.get("funcs", {}):
@@ -534,6 +554,8 @@ class Tr:
         if not stmts:
             if getattr(self, "_loop", None):
                 return f"{ind}{self._loop} fuel {self.state}"          # end of the loop body: next iteration
+            if getattr(self, "_forloop", None):
+                return f"{ind}{self._forloop[0]} rest_ ({', '.join(self._forloop[1])})"
             if self.spec.get("implicit_return"):
                 return ind + self.ret(None)
             raise Unsupported("control falls off the end")
@@ -556,6 +578,103 @@ class Tr:
             return self.block(rest, ind)          # logging: no effect on what is modelled (its arguments are not evaluated here)
         if any(ast.unparse(s).startswith(x) for x in self.spec.get("skip_src", ())):
             return self.block(rest, ind)
+        if isinstance(s, ast.Pass):
+            return self.block(rest, ind)
+        if isinstance(s, ast.If) and self.spec.get("raising_methods") and self._has_raising_method(s.test):
+            import copy as _c
+            return self.block(self._compile_test(s.test, _c.deepcopy(list(s.body)), _c.deepcopy(list(s.orelse))) + list(rest), ind)
+        if (isinstance(s, ast.Assign) and len(s.targets) == 1 and isinstance(s.targets[0], ast.Name) and self._raising_method(s.value)):
+            fn = self.spec["raising_methods"][s.value.func.attr]
+            x = s.targets[0].id
+            self.types[x] = "bool"
+            return f"{ind}match {fn} {self.e(s.value.func.value)} with\n{ind}| .error e => .error e\n{ind}| .ok {x} =>\n" + self.block(rest, ind + "  ")
+        fl = getattr(self, "_forloop", None)
+        if fl and isinstance(s, ast.Continue):
+            return f"{ind}{fl[0]} rest_ ({', '.join(fl[1])})"
+        if fl and isinstance(s, ast.Break):
+            return f"{ind}.ok ({', '.join(fl[1])})"
+        if fl and isinstance(s, (ast.Return, ast.Raise)):
+            raise Unsupported("return / raise inside a for loop with carried variables")
+        if (isinstance(s, ast.For) and self.spec.get("for_loops") and s.orelse and isinstance(s.target, ast.Name)
+                and any(isinstance(x, ast.Break) for st in s.body for x in ast.walk(st))):
+            # `for … else`: the else suite runs when the loop was not left by `break` - a flag carried by the loop
+            self._nfe = getattr(self, "_nfe", 0) + 1
+            flag = f"left_{self._nfe}"
+            self.types[flag] = "bool"
+
+            class Br(ast.NodeTransformer):
+                def visit_Break(self_, node):
+                    return [ast.Assign(targets=[ast.Name(id=flag, ctx=ast.Store())], value=ast.Constant(value=True), lineno=0), ast.Break()]
+
+                def visit_For(self_, node):
+                    return node             # an inner loop's break is its own
+
+                def visit_While(self_, node):
+                    return node
+            import copy as _c
+            body2 = [x for st in _c.deepcopy(list(s.body)) for x in (lambda r: r if isinstance(r, list) else [r])(Br().visit(st))]
+            loop = ast.For(target=s.target, iter=s.iter, body=body2, orelse=[], lineno=0)
+            init = ast.Assign(targets=[ast.Name(id=flag, ctx=ast.Store())], value=ast.Constant(value=False), lineno=0)
+            after = ast.If(test=ast.UnaryOp(op=ast.Not(), operand=ast.Name(id=flag, ctx=ast.Load())), body=list(s.orelse), orelse=[])
+            return self.block([init, loop, after] + list(rest), ind)
+        if (isinstance(s, ast.For) and self.spec.get("for_loops") and not s.orelse and isinstance(s.target, ast.Name)
+                and any(isinstance(x, ast.Break) for st in s.body for x in ast.walk(st))):
+            # `for v in L: body` that re-binds locals and leaves with `break`: recursion over the list, carrying those locals
+            assigned = []
+            for st in s.body:
+                for x in ast.walk(st):
+                    if isinstance(x, ast.Name) and isinstance(x.ctx, ast.Store) and x.id in self.types and x.id != s.target.id and x.id not in assigned:
+                        assigned.append(x.id)
+            # carried: re-bound in the body AND (read after the loop, or read in the body before its first binding there)
+            after = {x.id for st in rest for x in ast.walk(st) if isinstance(x, ast.Name) and isinstance(x.ctx, ast.Load)}
+            seen_store, early = set(), set()
+            for st in s.body:
+                tg = {t.id for t in (st.targets if isinstance(st, ast.Assign) else []) if isinstance(t, ast.Name)}
+                val = st.value if isinstance(st, ast.Assign) else st
+                for x in ast.walk(val):
+                    if isinstance(x, ast.Name) and isinstance(x.ctx, ast.Load) and x.id not in seen_store:
+                        early.add(x.id)
+                if isinstance(st, ast.Assign):
+                    seen_store |= tg
+                else:
+                    seen_store |= set()
+            stored = [v for v in assigned if v in after or v in early]
+            lt = self.spec["lean_types"]
+            if not stored or any(self.types[v] not in lt for v in stored):
+                raise Unsupported("for loop: carried variables")
+            self._nfor = getattr(self, "_nfor", 0) + 1
+            decl, args, elt_t, elt_lean = self.spec["for_loops"]
+            loaded = []
+            for st in s.body:
+                for x in ast.walk(st):
+                    if isinstance(x, ast.Name) and isinstance(x.ctx, ast.Load) and x.id not in loaded:
+                        loaded.append(x.id)
+            free = [v for v in loaded if v in getattr(self, "_bound", set()) and v not in stored and v not in assigned and v != s.target.id
+                    and v not in self.rename and self.types.get(v) in lt]
+            for v in free:           # read-only locals of the enclosing function that the body uses
+                decl += f"({v} : {lt[self.types[v]]}) "
+                args = (args + " " + v).strip()
+            name = f"{self.spec['name']}_for{self._nfor}"
+            carried_t = " × ".join(lt[self.types[v]] for v in stored)
+            sub = Tr(self.spec)
+            sub.scope, sub.types, sub.rename, sub.opaque = self.scope, dict(self.types), dict(self.rename), dict(self.opaque)
+            sub.types[s.target.id] = elt_t
+            sub._forloop = (name + (" " + args if args else ""), stored)
+            body = sub.block(list(s.body), "    ")
+            pat = "(" + ", ".join(stored) + ")"
+            for other, text in list(self.helpers.items()):
+                if text and other.startswith(f"{self.spec['name']}_for") and text.replace(other, "@") == (
+                        f"/-- the `for` loop of `{self.spec['func']}` (recursion over the list; carries {', '.join(stored)}) -/\n"
+                        f"def {name} {decl}: List ({elt_lean}) → {carried_t} → Except {self.spec['err_type']} ({carried_t})\n"
+                        f"  | [], {pat} => .ok {pat}\n  | {s.target.id} :: rest_, {pat} =>\n{body}\n").replace(name, "@"):
+                    # the continuation was duplicated by an `if`: the same loop again - reuse its definition
+                    return (f"{ind}match {other}{(' ' + args) if args else ''} {self.e(s.iter)} {pat} with\n{ind}| .error e => .error e\n{ind}| .ok {pat} =>\n"
+                            + self.block(rest, ind + "  "))
+            self.helpers[name] = (f"/-- the `for` loop of `{self.spec['func']}` (recursion over the list; carries {', '.join(stored)}) -/\n"
+                                  f"def {name} {decl}: List ({elt_lean}) → {carried_t} → Except {self.spec['err_type']} ({carried_t})\n"
+                                  f"  | [], {pat} => .ok {pat}\n  | {s.target.id} :: rest_, {pat} =>\n{body}\n")
+            return (f"{ind}match {name}{(' ' + args) if args else ''} {self.e(s.iter)} {pat} with\n{ind}| .error e => .error e\n{ind}| .ok {pat} =>\n"
+                    + self.block(rest, ind + "  "))
         hoisted = self._hoist_test_call(s)
         if hoisted is not None:
             return self.block(hoisted + list(rest), ind)
@@ -718,7 +837,10 @@ class Tr:
             vt = self.typ(s.value)
             # an Optional value keeps its Option type when it is only bound to a name
             val = self.raw(s.value) if vt.startswith("opt") and self.dotted(s.value) is not None else self.e(s.value)
+            if self.types.get(d, "").startswith("opt") and not vt.startswith("opt") and not (isinstance(s.value, ast.Constant) and s.value.value is None):
+                val = f"some ({val})"               # a value stored into a name declared Optional
             self.types.setdefault(d, vt)
+            self._bound = getattr(self, "_bound", set()) | {d}
             return f"{ind}let {d} := {val}\n" + self.block(rest, ind)
         if isinstance(s, ast.AnnAssign) and isinstance(s.target, ast.Name) and s.value is not None:
             if isinstance(s.value, ast.Dict) and not s.value.keys:
@@ -831,6 +953,47 @@ class Tr:
                 self.rename, self.types = saved
                 return (f"{ind}match ({self.e(s.iter)}).findSome? (fun {v} =>\n{body}) with\n{ind}| some r => r\n{ind}| none =>\n" + self.block(rest, ind + "  "))
             raise Unsupported("for loop shape")
+        if (self.spec.get("try_calls") and isinstance(s, ast.Try) and not s.orelse and not s.finalbody and s.body and isinstance(s.body[0], ast.Assign)
+                and len(s.body[0].targets) == 1 and isinstance(s.body[0].targets[0], ast.Name) and isinstance(s.body[0].value, ast.Call)):
+            v0, x = s.body[0].value, s.body[0].targets[0].id
+            key = v0.func.attr if isinstance(v0.func, ast.Attribute) and self.dotted(v0.func) not in self.spec["try_calls"] else self.dotted(v0.func)
+            ent = self.spec["try_calls"].get(key)
+            if ent is None:
+                raise Unsupported(f"try around {ast.unparse(v0)[:40]}")
+            if {k.arg: ast.unparse(k.value) for k in v0.keywords} != ent.get("kw", {}):
+                raise Unsupported(f"keyword arguments of {ast.unparse(v0)[:40]}")
+            argv = ([v0.func.value] if ent.get("recv") else []) + [v0.args[i] for i in ent.get("args", [])]
+            if len(v0.args) != ent.get("nargs", len(ent.get("args", []))):
+                raise Unsupported(f"arguments of {ast.unparse(v0)[:40]}")
+            argstr = "".join(" " + self.e(a) for a in argv)
+            # the statements after the call inside the try must not be able to raise into the handlers: plain returns / bindings only
+            for st in s.body[1:]:
+                if not isinstance(st, (ast.Return, ast.Assign)) or self._has_raising_method(st):
+                    raise Unsupported("statements after the guarded call")
+            got = [tuple(sorted(ast.unparse(e) for e in h.type.elts)) if isinstance(h.type, ast.Tuple) else (ast.unparse(h.type),) if h.type is not None else ("BaseException",)
+                   for h in s.handlers]
+            want = [tuple(sorted(t)) for t, _ in ent["handlers"]]
+            if got != want:
+                raise Unsupported(f"handlers {got} around {ast.unparse(v0)[:30]}")
+            saved = (dict(self.rename), dict(self.types), dict(self.opaque))
+            arms = []
+            for h, (_, pat) in zip(s.handlers, ent["handlers"]):
+                self.rename, self.types, self.opaque = dict(saved[0]), dict(saved[1]), dict(saved[2])
+                if h.name:
+                    self.types[h.name] = "str"
+                hb = list(h.body)
+                if not hb or not isinstance(hb[-1], (ast.Return, ast.Raise, ast.Continue, ast.Break)):
+                    hb = hb + list(rest)
+                arms.append(f"{ind}| {pat} =>\n" + self.block(hb, ind + "  "))
+            self.rename, self.types, self.opaque = dict(saved[0]), dict(saved[1]), dict(saved[2])
+            self.types[x] = ent["rtype"]
+            self._bound = getattr(self, "_bound", set()) | {x}
+            okb = list(s.body[1:])
+            if not okb or not isinstance(okb[-1], (ast.Return, ast.Raise, ast.Continue, ast.Break)):
+                okb = okb + list(rest)
+            ok = f"{ind}| {ent.get('ok', '.ok')} {x} =>\n" + self.block(okb, ind + "  ")
+            self.rename, self.types, self.opaque = saved
+            return f"{ind}match {ent['fn']}{argstr} with\n" + "\n".join(arms) + "\n" + ok
         if (self.spec.get("try_except") and isinstance(s, ast.Try) and len(s.body) == 1 and isinstance(s.body[0], ast.Assign) and len(s.body[0].targets) == 1
                 and len(s.handlers) == 1 and not s.orelse and not s.finalbody and isinstance(s.body[0].value, ast.Call)):
             # `try: x = f(args)  except E [as e]: <handler that ends the function>` with f a call that may raise E
@@ -882,6 +1045,33 @@ class Tr:
                 raise Unsupported("except body")
             return f"{ind}match {self.opaque[call]} with\n{ind}| none => {self.ret(h[0].value)}\n{ind}| some {x} =>\n" + self.block(rest, ind + "  ")
         raise Unsupported(f"statement {type(s).__name__}: {ast.unparse(s)[:50]}")
+
+    # ---- calls that may raise inside conditions (pathlib queries …): evaluated in Python's order, short-circuit included ----------
+    def _raising_method(self, n):
+        return (isinstance(n, ast.Call) and isinstance(n.func, ast.Attribute) and n.func.attr in self.spec.get("raising_methods", {})
+                and not n.args and not n.keywords)
+
+    def _has_raising_method(self, n) -> bool:
+        return any(self._raising_method(x) for x in ast.walk(n))
+
+    def _compile_test(self, t, then, orelse):
+        """statements equivalent to `if t: then else: orelse` in which every raising call of `t` is a statement of its own"""
+        if isinstance(t, ast.BoolOp) and isinstance(t.op, ast.And):
+            rest = t.values[1] if len(t.values) == 2 else ast.BoolOp(op=ast.And(), values=t.values[1:])
+            return self._compile_test(t.values[0], self._compile_test(rest, then, orelse), orelse)
+        if isinstance(t, ast.BoolOp) and isinstance(t.op, ast.Or):
+            rest = t.values[1] if len(t.values) == 2 else ast.BoolOp(op=ast.Or(), values=t.values[1:])
+            return self._compile_test(t.values[0], then, self._compile_test(rest, then, orelse))
+        if isinstance(t, ast.UnaryOp) and isinstance(t.op, ast.Not):
+            return self._compile_test(t.operand, orelse, then)
+        if self._raising_method(t):
+            self._nq = getattr(self, "_nq", 0) + 1
+            tmp = f"q_{self._nq}"
+            return [ast.Assign(targets=[ast.Name(id=tmp, ctx=ast.Store())], value=t, lineno=0),
+                    ast.If(test=ast.Name(id=tmp, ctx=ast.Load()), body=list(then) or [ast.Pass()], orelse=list(orelse))]
+        if self._has_raising_method(t):
+            raise Unsupported(f"raising call inside {ast.unparse(t)[:40]}")
+        return [ast.If(test=t, body=list(then) or [ast.Pass()], orelse=list(orelse))]
 
     def _hoist_test_call(self, s):
         """`if A and [not] self._h(...): B [else: C]` with `_h` a private method that can be inlined: the call is evaluated by a
@@ -979,7 +1169,9 @@ class Tr:
         # a parameter that is never re-bound and whose argument is a constant or an attribute chain is substituted
         # (so `status.value` with status=StatusCode.X reads `StatusCode.X.value`, as it did before the extraction)
         subst = {a.arg: given[a.arg] for a in params
-                 if a.arg not in stored and (isinstance(given[a.arg], (ast.Constant, ast.JoinedStr)) or (isinstance(given[a.arg], ast.Attribute) and self.dotted(given[a.arg]) is not None))}
+                 if a.arg not in stored and (isinstance(given[a.arg], (ast.Constant, ast.JoinedStr)) or (isinstance(given[a.arg], ast.Attribute) and self.dotted(given[a.arg]) is not None)
+                                             or (isinstance(given[a.arg], ast.Name) and given[a.arg].id not in stored and given[a.arg].id != a.arg
+                                                 and given[a.arg].id not in {p_.arg for p_ in params}))}
         binds = []
         for a, v in ((a, given[a.arg]) for a in params if a.arg not in subst):
             if isinstance(v, ast.Name) and v.id == a.arg:
@@ -1017,6 +1209,9 @@ class Tr:
         else:
             self._ntmp = getattr(self, "_ntmp", 0) + 1
             tmp = f"{f.name.strip('_')}_{self._ntmp}"
+            rann = ast.unparse(f.returns) if f.returns is not None else ""
+            if rann.endswith("| None") or rann.startswith("Optional[") or rann.startswith("None |"):
+                self.types[tmp] = "optobj"          # the helper's result is Optional: its `return x` is `some x`, `return None` is `none`
 
             class Sub(ast.NodeTransformer):
                 def visit_Call(self_, node):
@@ -1037,6 +1232,35 @@ class Tr:
             return None
         name = d[5:] if d.startswith("self.") else d
         return name if name.startswith("_") and "." not in name and not name.startswith("__") else None
+
+    def _inline_expr(self, call, name):
+        """a private helper whose body is one `return <expr>`: the expression with the arguments put in place of the parameters
+        (arguments that are names, attribute chains or constants only - evaluating them twice or not at all changes nothing)"""
+        f = self._find_helper(name)
+        if f is None or not self.spec.get("inline_exprs", True):
+            return None
+        body = [st for st in f.body if not (isinstance(st, ast.Expr) and isinstance(st.value, ast.Constant))]
+        if len(body) != 1 or not isinstance(body[0], ast.Return) or body[0].value is None:
+            return None
+        params = [a.arg for a in f.args.args if a.arg not in ("self", "cls")]
+        if f.args.vararg or f.args.kwarg or f.args.kwonlyargs or len(call.args) > len(params) or any(k.arg not in params for k in call.keywords):
+            return None
+        given = dict(zip(params, call.args))
+        given.update({k.arg: k.value for k in call.keywords})
+        defaults = dict(zip(params[len(params) - len(f.args.defaults):], f.args.defaults))
+        for p_ in params:
+            given.setdefault(p_, defaults.get(p_))
+        if any(v is None or not (isinstance(v, ast.Constant) or self.dotted(v) is not None) for v in given.values()):
+            return None
+        import copy
+
+        class A(ast.NodeTransformer):
+            def visit_Name(self_, node):
+                return copy.deepcopy(given[node.id]) if node.id in given and isinstance(node.ctx, ast.Load) else node
+
+        if any(isinstance(x, ast.Name) and isinstance(x.ctx, ast.Store) for x in ast.walk(body[0].value)):
+            return None
+        return A().visit(copy.deepcopy(body[0].value))
 
     def _lean_helper(self, name):
         return self.spec["name"] + "_" + name.strip("_")
@@ -1198,6 +1422,41 @@ class Tr:
         return all(isinstance(a, (ast.Assign, ast.AugAssign, ast.If)) for a in b)
 
 
+def _static_response(tr, n):
+    """`GeminiResponse(status=…, meta=…[, body=…])` of StaticFileHandler.handle as a constructor of Fs.SResp"""
+    kw = {k.arg: k.value for k in n.keywords}
+    if isinstance(kw.get("body"), ast.Constant) and kw["body"].value is None:
+        del kw["body"]
+    if n.args or set(kw) - {"status", "meta", "body"} or "status" not in kw or "meta" not in kw:
+        raise Unsupported("response construction")
+    status = ast.unparse(kw["status"])
+    meta = kw["meta"]
+    if isinstance(meta, ast.Name) and tr.module_const(meta.id) is not None:
+        meta = tr.module_const(meta.id)
+    if isinstance(meta, ast.Attribute) and isinstance(meta.value, ast.Name) and meta.value.id in ("self", "cls") and tr.class_const(meta.attr) is not None:
+        meta = tr.class_const(meta.attr)
+    mtext = meta.value if isinstance(meta, ast.Constant) else None
+    mpre = (meta.values[0].value if isinstance(meta, ast.JoinedStr) and len(meta.values) == 2 and isinstance(meta.values[0], ast.Constant)
+            and isinstance(meta.values[1], ast.FormattedValue) and ast.unparse(meta.values[1].value) in ("str(e)", "e") else None)
+    table = {("StatusCode.NOT_FOUND.value", "Not found"): ".notFound",
+             ("StatusCode.PERMANENT_FAILURE.value", "File too large - use alternative protocol"): ".tooLarge",
+             ("StatusCode.TEMPORARY_FAILURE.value", "File encoding error (not UTF-8)"): "(.tempFail .notUtf8)",
+             ("StatusCode.TEMPORARY_FAILURE.value", "Permission denied"): "(.tempFail .denied)"}
+    pre = {("StatusCode.TEMPORARY_FAILURE.value", "Server error: "): "(.tempFail .ioError)",
+           ("StatusCode.TEMPORARY_FAILURE.value", "Error generating directory listing: "): "(.tempFail .listing)"}
+    if "body" not in kw and (status, mtext) in table:
+        return table[(status, mtext)]
+    if "body" not in kw and (status, mpre) in pre:
+        return pre[(status, mpre)]
+    if status == "StatusCode.SUCCESS.value" and "body" in kw and isinstance(kw["body"], ast.Name):
+        b = kw["body"].id
+        if tr.types.get(b) == "content" and ast.unparse(meta) == "mime_type":
+            return f"(.file {tr.e(ast.Name(id='file_path', ctx=ast.Load()))} {b})"
+        if tr.types.get(b) == "listing" and ast.unparse(meta) == "MIME_TYPE_GEMTEXT":
+            return f"(.listing {tr.e(ast.Name(id='file_path', ctx=ast.Load()))} {b})"
+    raise Unsupported(f"response {ast.unparse(n)[:60]}")
+
+
 SQL_TOFU = {
     "SELECT fingerprint FROM known_hosts WHERE hostname = ? AND port = ?": dict(fn="D.selectFp", nparams=2, params=[0, 1], ret="optobj", bind="cur"),
     "INSERT INTO known_hosts (hostname, port, fingerprint, first_seen, last_seen) VALUES (?, ?, ?, ?, ?)":
@@ -1275,7 +1534,7 @@ SPECS = [
                  "Invalid size parameter": ".badSize", "Size must be non-negative": ".negSize"},
          types={"line": "str", "url_part": "str", "params_str": "str", "params": "dict", "_parse_titan_params(params_str)": "dict", "size": "num", "gemini_url": "str",
                 "parsed": "obj", "parsed.hostname": "str", "parsed.path": "str", "parsed.query": "str", "parsed.normalized": "str", "parsed.port": "num"}),
-    dict(name="uploadGate", file="server/handler.py", cls="FileUploadHandler", func="handle_upload", str="string", ret_opt=True,
+    dict(name="uploadGate", file="server/handler.py", cls="FileUploadHandler", func="handle_upload", str="string", ret_opt=True, hoist_tests=True,
          header=("def uploadGate (auth_tokens : List String) (max_size : Nat) (allowed_types : Option (List String)) (token : Option String)\n"
                  "    (size : Nat) (mime_type : String) : Option Nat :="),
          opaque={"isinstance(request, TitanRequest)": "true"},
@@ -1422,6 +1681,24 @@ SPECS = [
          header="def pauseWriting (s : Srv.Flow.FSt) : Srv.Flow.FSt × Unit :=", state_type="Srv.Flow.FSt",
          fields={"_unsent": "unsent", "_write_paused": "paused", "_response_sent": "started"},
          types={"self._write_paused": "bool"}),
+    dict(name="staticHandle", file="server/handler.py", cls="StaticFileHandler", func="handle", mode="except", hoist_tests=True,
+         header="def staticHandle (os : Fs.OS) (cfg : Fs.SCfg) (comps : Fs.Path) (trailing : Bool) : Except Unit Fs.SResp :=",
+         err_type="Unit", paths=True, stat_size="os.size", for_loops=("(os : Fs.OS) (cfg : Fs.SCfg) ", "os cfg", "name", "Fs.Name"),
+         lean_types={"path": "Fs.Path", "bool": "Bool"},
+         skip_src=("requested_path = ", "mime_type = "),
+         rename={"self.document_root": "cfg.root", "requested_path": "comps", "self.default_indices": "cfg.indices", "self.enable_directory_listing": "cfg.listingOn",
+                 "self.max_file_size": "cfg.maxSize"},
+         opaque={"requested_path.endswith('/')": "trailing"},
+         types={"requested_path": "path", "self.document_root": "path", "file_path": "path", "index_path": "path", "index_found": "bool", "self.default_indices": "list",
+                "self.enable_directory_listing": "bool", "self.max_file_size": "num", "file_size": "num", "requested_path.endswith('/')": "bool"},
+         funcs={"self._is_safe_path": "Fs.inside cfg.root"},
+         raising_methods={"is_dir": "Fs.isDirE os", "exists": "Fs.existsE os", "is_file": "Fs.isFileE os"},
+         try_calls={"resolve": dict(fn="Fs.resolveE os", recv=True, kw={"strict": "True"}, nargs=0, handlers=[(("OSError", "RuntimeError", "ValueError"), ".error _")], rtype="path"),
+                    "generate_directory_listing": dict(fn="Fs.listingE os", args=[0], nargs=2, handlers=[(("Exception",), ".error _")], rtype="listing"),
+                    "read_text": dict(fn="os.readText", recv=True, kw={"encoding": "'utf-8'"}, nargs=0, ok=".ok", rtype="content",
+                                      handlers=[(("UnicodeDecodeError",), ".notUtf8"), (("PermissionError",), ".denied"), (("Exception",), ".ioError")])},
+         pytypes={"Path": ("path", "Fs.Path"), "bool": ("bool", "Bool")},
+         call_hooks={"GeminiResponse": _static_response}),
     dict(name="parseUrl", file="utils/url.py", cls=None, func="parse_url", mode="except", numfmt="Url.natToStr",
          header=("def parseUrl (url scheme : Url.Str) (hostname username password : Option Url.Str) (fragment : Url.Str) (splitR : Except Url.Err Unit)\n"
                  "    (portR : Except Url.Err (Option Nat)) (path netloc query : Url.Str) : Except Url.Err Url.Parsed :="),
@@ -1471,6 +1748,7 @@ PRELUDE = {
     "uploadGate": ([], []),
     "followRedirects": (["NauyacaVerif.Cl.Redirect"], []),
     "dataReceived": (["NauyacaVerif.Srv.PState"], []),
+    "staticHandle": (["NauyacaVerif.Fs.StaticPy"], []),
     "pumpResponse": (["NauyacaVerif.Srv.FlowPy"], []), "resumeWriting": (["NauyacaVerif.Srv.FlowPy", "NauyacaVerif.Gen.Fn.PumpResponse"], []),
     "pauseWriting": (["NauyacaVerif.Srv.FlowPy"], []), "sendResponse": (["NauyacaVerif.Srv.FlowPy", "NauyacaVerif.Gen.Fn.PumpResponse"], []), "connectionLost": (["NauyacaVerif.Srv.FlowPy"], []),
     "clientDataReceived": (["NauyacaVerif.Cl.PyClient"], []), "titanClientDataReceived": (["NauyacaVerif.Cl.PyClient"], []),
